@@ -446,6 +446,9 @@ let schema_missing (case0 : string) : bool =
   (let sp = (try String.index case0 ' ' with Not_found -> String.length case0) in
    not (List.mem_assoc (String.sub case0 1 (sp - 1)) (Lazy.force ctx_table)))
 
+(* rendering: C11.Precision.render_c11 (API-built float fields carry their output precision) *)
+let () = render_hook := render_c11
+
 let () = run_protocol (fun case0 impl ->
   if schema_missing case0 then ("SKIP schema not built in this tier", true, true)
   else with_schema case0 (fun c case ->
